@@ -99,7 +99,8 @@ func coveringRules(c *sim.Case, paths ...string) []*configv1.TriggerRule {
 		return []*configv1.TriggerRule{{IncludedPaths: []*configv1.StringMatch{{MatchType: &configv1.StringMatch_Prefix{Prefix: "/"}}}}}
 	}
 	r := &configv1.TriggerRule{
-		ExcludedPaths: []*configv1.StringMatch{{MatchType: &configv1.StringMatch_Suffix{Suffix: ".public"}}},
+		// (an expression that does not compile is accepted by the loader and simply never matches)
+		ExcludedPaths: []*configv1.StringMatch{{MatchType: &configv1.StringMatch_Suffix{Suffix: ".public"}}, {MatchType: &configv1.StringMatch_Regex{Regex: "(public"}}},
 	}
 	for _, p := range append([]string{"/cb", "/logout"}, paths...) {
 		q := p
